@@ -515,6 +515,9 @@ func C13(c *core.Ctx) {
 						} else {
 							r.Amt, r.Extra = abs(r.Amt), []stEff{{C: stockSyms[rng.Intn(len(stockSyms))], V: -100 * sh}}
 						}
+						if !im.Finals && rng.Intn(10) == 0 { // (Swissquote) worthless shares sold: nothing but the fee
+							r.Amt, r.Extra = -(1 + rng.Intn(900)), []stEff{{C: stockSyms[rng.Intn(len(stockSyms))], V: -100 * sh}}
+						}
 						if im.Finals {
 							r.Fee = rng.Intn(500)
 							if rng.Intn(3) == 0 { // fractional shares (four decimals)
